@@ -7,5 +7,7 @@ mod engine;
 mod findings;
 mod misc;
 mod client;
+mod inbound;
+mod wire;
 
 pub(crate) fn tier_thorough() -> bool { std::env::var("VERIF_TIER").map(|v| v == "thorough").unwrap_or(false) }
